@@ -122,6 +122,8 @@ def run_items(res, pid, name, items, what='statistic differs from the model valu
                 q = dict(q)
                 if q['kind'] == 'moment':
                     q.setdefault('end', end_default)
+                    if it['spec'].get('start_time') and 'start' not in q:
+                        q['start'] = it['spec']['start_time']
                 qs.append(q)
         txt, _ = case_text(i, it['spec'], r, qs if lc else [], [] if lc else qs)
         bodies.append(txt)
